@@ -19,8 +19,6 @@ Proof. unfold stream, upd_out; cbn [out buffer bodybuf]. rewrite concat_snoc, <-
 Lemma stream_set_bufs r b bb : stream (set_bufs r b bb) = concat (out r) ++ ob b ++ ob bb.
 Proof. reflexivity. Qed.
 
-(* prep = the first three calls of Write/Flush/flushResponse: WriteHeader(200), checkChunked, hasBody *)
-Definition prep0 (r : resp) : resp := check_chunked (write_header r 200 [79;75]).
 
 Lemma wh_bufs r c t : out (write_header r c t) = out r /\ buffer (write_header r c t) = buffer r /\ bodybuf (write_header r c t) = bodybuf r
   /\ headEncoded (write_header r c t) = headEncoded r /\ chunked (write_header r c t) = chunked r /\ chunkChecked (write_header r c t) = chunkChecked r
@@ -133,8 +131,7 @@ Proof. repeat split. Qed.
 Lemma op_write_started_ch r d : StartedCh r -> d <> [] ->
   let r' := fst (op_write r d) in stream r' = stream r ++ chunk d /\ StartedCh r'.
 Proof.
-  intros (Hs & Hc & He & Hb) Hd. unfold op_write. destruct d as [|c d]; [congruence|]. cbv zeta.
-  fold (prep0 r). rewrite (prep0_settled r Hs). cbn [set_hasbody chunked]. rewrite Hc.
+  intros (Hs & Hc & He & Hb) Hd. unfold op_write. destruct d as [|c d]; [congruence|]. rewrite (prep0_settled r Hs). unfold write_core. cbv zeta. cbn [set_hasbody chunked]. rewrite Hc.
   destruct (write_chunk_stream (set_hasbody r) (c :: d)) as (S1 & S2 & S3 & S4 & S5 & S6); [exact He|exact Hb|].
   split; [exact S1|]. destruct Hs as [H1 H2]. unfold StartedCh, settled.
   rewrite S2, S3, S4, S5, S6. cbn [set_hasbody chunked chunkChecked code]. repeat split; auto.
@@ -293,7 +290,7 @@ Lemma op_write_first_ch r d : NotStarted r -> chunked (prep0 r) = true -> d <> [
   exists H, stream r' = H ++ chunk d /\ StartedCh r'.
 Proof.
   intros Hn Hc Hd. destruct (started_from_prep r Hn Hc) as (_ & _ & S & So).
-  unfold op_write. destruct d as [|c d]; [congruence|]. cbv zeta. fold (prep0 r). cbn [set_hasbody chunked]. rewrite Hc.
+  unfold op_write. destruct d as [|c d]; [congruence|]. unfold write_core. cbv zeta. cbn [set_hasbody chunked]. rewrite Hc.
   destruct Hn as (_ & _ & _ & Hbb). destruct (prep0_bufs r) as (_ & _ & C & _).
   destruct (write_chunk_stream' (set_hasbody (prep0 r)) (c :: d)) as (S1 & S2 & S3 & S4 & S5 & S6); [cbn [set_hasbody bodybuf]; congruence|].
   exists (stream (encode_head (set_hasbody (prep0 r)))). split; [exact S1|].
@@ -400,7 +397,7 @@ Lemma op_write_identity r c d' : settled r -> chunked r = false ->
     if (0 <? ecl r) && (ecl r <? bodyWritten r + len d) then (r1, WErrContentLength)
     else append_phase (ecl r) (if 0 <? ecl r then head_phase r1 (len d) else r1) d.
 Proof.
-  intros Hs Hc. cbv zeta. unfold op_write. fold (prep0 r). rewrite (prep0_settled r Hs). cbv zeta.
+  intros Hs Hc. cbv zeta. unfold op_write. rewrite (prep0_settled r Hs). unfold write_core. cbv zeta.
   cbn [set_hasbody chunked contentLen h_cl bodyWritten]. rewrite Hc. fold (ecl r).
   assert (E : (if 0 <? contentLen r then contentLen r else ecl r) = ecl r).
   { unfold ecl. destruct (0 <? contentLen r); reflexivity. }
@@ -519,56 +516,44 @@ Proof.
     destruct (append_phase_stream 0 r1 (c :: d')) as (Q1 & Q2 & Q3 & Q4 & Q5 & Q6 & Q7 & Q8 & Q9); [lia|].
     cbv zeta in *.
     split; [|split; [|split; [|now rewrite Q3, A4]]].
-    + unfold IdInv, settled. rewrite Q2, Q3, Q4, Q5, Q6, A2, A4, A5, A6, A7. destruct Hs as [S1 S2].
-      repeat split; auto; try lia.
-      * unfold ecl. rewrite Q7, Q8, A8. cbn [contentLen r1]. unfold ecl in He. cbn.
-        destruct (0 <? contentLen r) eqn:E; [apply N.ltb_lt in E; lia|exact He].
-      * apply Hu in H. apply H.
-      * unfold stream in Q1. destruct (Hu H) as ((_ & Ho & _) & _).
-        (* out unchanged by an append without flush when CL = 0 *)
-        unfold append_phase. cbv zeta. cbn [andb N.ltb]. destruct (bodybuf r1); cbn [fst set_written set_bufs out]; rewrite ?A1; exact Ho.
-      * apply Hu in H. apply H.
+    + assert (Hout : out (fst (append_phase 0 r1 (c :: d'))) = out r).
+      { unfold append_phase. cbv zeta. cbn [andb N.ltb N.compare]. destruct (bodybuf r1); cbn [fst set_written set_bufs out]; exact A1. }
+      assert (Hecl : ecl (fst (append_phase 0 r1 (c :: d'))) = 0).
+      { unfold ecl. rewrite Q7, Q8, A8, A9. cbn [N.ltb N.compare]. unfold ecl in He.
+        destruct (0 <? contentLen r) eqn:E; [apply N.ltb_lt in E; lia|exact He]. }
+      destruct Hs as [S1 S2]. unfold IdInv, settled. rewrite Q5, Q6, Q4, A5, A6, A7.
+      split; [split; assumption|]. split; [assumption|]. split; [exact Hecl|]. split.
+      * intros Hf. rewrite Q3, A4 in Hf. destruct (Hu Hf) as ((U1 & U2 & U3) & _).
+        split; [|intros; lia]. unfold Unstarted. rewrite Q3, A4, Hout, Q2, A2. auto.
+      * intros Hx. lia.
     + intros _. now rewrite Q1, Sr1.
     + intros _ Hf. lia.
 Qed.
 
-Lemma id_write_refused CL r c d' : IdInv CL r -> In WErrContentLength (snd (op_write r (c :: d'))) ->
-  IdInv CL (fst (op_write r (c :: d'))) /\ stream (fst (op_write r (c :: d'))) = stream r.
+Lemma flush_core_props e :
+  let r' := flush_core e in
+  stream r' = stream e /\ ob (buffer r') = [] /\ ob (bodybuf r') = [] /\ headEncoded r' = headEncoded e /\ chunked r' = chunked e
+  /\ chunkChecked r' = chunkChecked e /\ code r' = code e /\ contentLen r' = contentLen e /\ h_cl r' = h_cl e.
 Proof.
-  intros (Hs & Hc & He & Hu & Hk) Hin.
-  pose proof (op_write_identity r c d' Hs Hc) as W. cbv zeta in W. rewrite W in *. rewrite He in *.
-  destruct ((0 <? CL) && (CL <? bodyWritten r + len (c :: d'))) eqn:Eref.
-  - cbn [fst]. split; [|reflexivity]. apply andb_true_iff in Eref as [E1 _]. apply N.ltb_lt in E1.
-    unfold IdInv, settled. cbn [set_written set_hasbody chunkChecked code chunked headEncoded out buffer bodybuf].
-    destruct Hs. repeat split; auto.
-    + unfold ecl; cbn [set_written contentLen]. destruct (N.ltb_spec 0 CL); [reflexivity|lia].
-    + apply Hu in H1. apply H1.
-    + apply Hu in H1. apply H1.
-    + apply Hu in H1. apply H1.
-    + intros _. apply Hu; auto.
-  - exfalso. revert Hin. unfold append_phase. cbv zeta.
-    repeat match goal with |- context[if ?c then _ else _] => destruct c | |- context[match ?x with Some _ => _ | None => _ end] => destruct x end;
-      cbn [snd]; intros [H|[]]; discriminate.
+  unfold flush_core. cbv zeta.
+  destruct (buffer e) as [[|x b]|] eqn:Eb; destruct (bodybuf e) as [[|y bb]|] eqn:Ebb;
+    cbn [set_bufs upd_out bodybuf buffer]; rewrite ?Eb, ?Ebb; cbv beta iota;
+    unfold stream; cbn [set_bufs upd_out out buffer bodybuf headEncoded chunked chunkChecked code contentLen h_cl];
+    rewrite ?concat_snoc, ?Eb, ?Ebb; cbn [ob app]; rewrite ?app_nil_r, <- ?app_assoc; repeat split; auto.
 Qed.
 
 Lemma id_flush CL r : IdInv CL r ->
   let r' := op_flush r in
   IdInv CL r' /\ headEncoded r' = true /\ stream r' = stream (encode_head r).
 Proof.
-  intros (Hs & Hc & He & Hu & Hk). unfold op_flush. fold (prep0 r). rewrite (prep0_settled r Hs).
+  intros (Hs & Hc & He & Hu & Hk). cbv zeta. rewrite op_flush_eq, (prep0_settled r Hs).
   destruct (eh_fields r) as (F1 & F2 & F3 & F4 & F5 & F6 & F7 & F8 & F9 & _).
-  set (e := encode_head r) in *.
-  assert (Base : settled e /\ chunked e = false /\ ecl e = CL).
-  { destruct Hs. unfold settled, ecl. rewrite F5, F6, F4, F7, F9. unfold ecl in He. auto. }
-  destruct Base as (B1 & B2 & B3).
-  destruct (buffer e) as [[|x b]|] eqn:Eb; destruct (bodybuf e) as [[|y bb]|] eqn:Ebb; cbv beta iota;
-    rewrite ?Eb, ?Ebb; cbn [set_bufs upd_out bodybuf buffer];
-    (split; [|split]);
-    try (unfold stream; cbn [set_bufs upd_out out buffer bodybuf]; rewrite ?concat_snoc, ?Eb, ?Ebb; cbn [ob app]; rewrite ?app_nil_r, <- ?app_assoc; reflexivity);
-    try exact F3;
-    try (unfold IdInv, settled, ecl in *; cbn [set_bufs upd_out chunkChecked code chunked contentLen h_cl headEncoded buffer bodybuf out];
-         destruct B1; repeat split; auto; try (rewrite F3; discriminate); try (intros; right; reflexivity); try (intros; left; assumption)).
-  all: try (intros _ _; rewrite ?Eb, ?Ebb; cbn [ob]; auto).
+  destruct (flush_core_props (encode_head r)) as (P1 & P2 & P3 & P4 & P5 & P6 & P7 & P8 & P9). cbv zeta in *.
+  split; [|split; [congruence|exact P1]].
+  destruct Hs as [S1 S2]. unfold IdInv, settled. rewrite P4, P5, P6, P7, F3, F4, F5, F6.
+  split; [split; assumption|]. split; [assumption|]. split.
+  - unfold ecl. rewrite P8, P9, F7, F9. exact He.
+  - split; [intros Hx; discriminate|]. intros _ _. right. exact P3.
 Qed.
 
 Lemma id_finish CL r : IdInv CL r ->
@@ -588,6 +573,38 @@ Lemma unstarted_stream r : Unstarted r -> stream r = ob (bodybuf r).
 Proof. intros (_ & Ho & Hb). unfold stream. now rewrite Ho, Hb. Qed.
 
 (* identity framing: the wire is the head followed by exactly the bytes of the accepted Writes, in order *)
+Lemma run_op_write_fst r d : fst (run_op r (HWrite d)) = fst (op_write r d).
+Proof. cbn [run_op]. destruct (op_write r d); reflexivity. Qed.
+
+(* one accepted non-empty Write, as a step of the induction below *)
+Lemma identity_wire_write CL r c d' (X : list N) :
+  IdInv CL r -> ~ In WErrContentLength (snd (run_op r (HWrite (c :: d')))) ->
+  let r1 := fst (op_write r (c :: d')) in
+  IdInv CL r1 /\
+  forall outf,
+    (headEncoded r1 = true -> outf = stream r1 ++ X) ->
+    (headEncoded r1 = false -> exists H, outf = H ++ ob (bodybuf r1) ++ X) ->
+    (headEncoded r = true -> outf = stream r ++ (c :: d') ++ X) /\
+    (headEncoded r = false -> exists H, outf = H ++ ob (bodybuf r) ++ (c :: d') ++ X).
+Proof.
+  intros Hi Hok. destruct (id_write CL r c d' Hi Hok) as (Hi1 & S1 & S2 & He1). cbv zeta in *.
+  split; [exact Hi1|]. intros outf I1 I2. split.
+  - intros He. rewrite He in He1.
+    assert (E1 : headEncoded (fst (op_write r (c :: d'))) = true) by (rewrite He1; destruct (0 <? CL); reflexivity).
+    rewrite (I1 E1), (S1 (or_introl He)). now rewrite <- app_assoc.
+  - intros He. destruct (N.ltb_spec 0 CL) as [Hcl|Hcl].
+    + destruct (S2 He Hcl) as [H SH]. assert (E1 : headEncoded (fst (op_write r (c :: d'))) = true) by (rewrite He1; reflexivity).
+      destruct Hi as (_ & _ & _ & Hu & _). destruct (Hu He) as [_ Hbn]. rewrite (Hbn Hcl). cbn [ob app].
+      exists H. rewrite (I1 E1), SH. now rewrite <- app_assoc.
+    + assert (E0 : CL = 0) by lia. rewrite He in He1.
+      destruct (I2 He1) as [H SH]. exists H. rewrite SH.
+      assert (Sr : stream (fst (op_write r (c :: d'))) = stream r ++ c :: d') by (apply S1; right; exact E0).
+      destruct Hi as (_ & _ & _ & Hu & _). destruct Hi1 as (_ & _ & _ & Hu1 & _).
+      rewrite (unstarted_stream r (proj1 (Hu He))), (unstarted_stream _ (proj1 (Hu1 He1))) in Sr.
+      rewrite Sr. now rewrite <- app_assoc.
+Qed.
+
+(* identity framing: the wire is the head followed by exactly the bytes of the accepted Writes, in order *)
 Lemma identity_wire CL body : forall r acc, IdInv CL r -> forallb is_wf_op body = true -> ok_run r body ->
   let rf := op_finish (fst (run_prog r body acc)) in
   (headEncoded r = true -> concat (out rf) = stream r ++ body_data body) /\
@@ -595,51 +612,47 @@ Lemma identity_wire CL body : forall r acc, IdInv CL r -> forallb is_wf_op body 
   ob (buffer rf) = [] /\ ob (bodybuf rf) = [].
 Proof.
   induction body as [|o body IH]; intros r acc Hi Hb Hok.
-  - cbn [run_prog fst body_data]. destruct (id_finish CL r Hi) as (F & B1 & B2). cbv zeta in *.
+  - cbn [run_prog fst body_data]. destruct (id_finish CL r Hi) as (F & B1 & B2). cbv zeta in F, B1, B2 |- *.
     rewrite !app_nil_r. repeat split; auto.
     + intros He. rewrite F. now rewrite (eh_encoded r He).
     + intros He. destruct Hi as (_ & _ & _ & Hu & _). destruct (Hu He) as [(_ & Ho & Hbuf) _].
       destruct (eh_fresh r He) as [h Eh]. destruct (eh_fields r) as (F1 & F2 & _).
       exists h. rewrite F. unfold stream. now rewrite F1, Ho, Eh, F2.
-  - cbn [forallb] in Hb. apply andb_true_iff in Hb as [Ho Hb]. cbn [ok_run] in Hok. destruct Hok as [Hok1 Hok].
-    cbn [run_prog]. destruct o; try discriminate; cbn [run_op] in *.
+  - cbn [forallb] in Hb. apply andb_true_iff in Hb as [Ho Hb]. destruct Hok as [Hok1 Hok].
+    destruct o; try discriminate.
     + (* HWrite *)
       destruct d as [|c d'].
-      * cbn [op_write fst snd body_data app] in *. apply IH; auto.
-      * destruct (op_write r (c :: d')) as [r1 w] eqn:E. cbn [fst snd] in *.
-        pose proof (id_write CL r c d' Hi) as W. cbn [run_op] in W. rewrite E in W. cbn [fst snd] in W.
-        destruct (W Hok1) as (Hi1 & S1 & S2 & He1).
-        destruct (IH r1 (acc ++ [w]) Hi1 Hb Hok) as (I1 & I2 & I3 & I4). cbv zeta in *.
-        cbn [body_data]. repeat split; auto.
-        -- intros He. rewrite He in He1.
-           assert (headEncoded r1 = true) by (rewrite He1; destruct (0 <? CL); reflexivity).
-           rewrite (I1 H), (S1 (or_introl He)). now rewrite <- app_assoc.
-        -- intros He. destruct (N.ltb_spec 0 CL) as [Hcl|Hcl].
-           ++ destruct (S2 He Hcl) as [H SH]. assert (E1 : headEncoded r1 = true) by (rewrite He1; reflexivity).
-              destruct Hi as (_ & _ & _ & Hu & _). destruct (Hu He) as [_ Hbn]. rewrite (Hbn Hcl). cbn [ob app].
-              exists H. rewrite (I1 E1), SH. now rewrite <- app_assoc.
-           ++ assert (CL = 0) by lia. subst CL. rewrite He in He1. cbn in He1.
-              destruct (I2 He1) as [H SH]. exists H. rewrite SH.
-              assert (Sr : stream r1 = stream r ++ c :: d') by (apply S1; right; reflexivity).
-              destruct Hi as (_ & _ & _ & Hu & _). destruct Hi1 as (_ & _ & _ & Hu1 & _).
-              rewrite (unstarted_stream r (proj1 (Hu He))), (unstarted_stream r1 (proj1 (Hu1 He1))) in Sr.
-              rewrite Sr. now rewrite <- app_assoc.
+      * change (run_prog r (HWrite [] :: body) acc) with (run_prog r body (acc ++ [WOk 0])).
+        cbn [body_data app]. apply IH; auto.
+      * destruct (identity_wire_write CL r c d' (body_data body) Hi Hok1) as [Hi1 Hstep].
+        rewrite run_op_write_fst in Hok.
+        assert (Erun : fst (run_prog r (HWrite (c :: d') :: body) acc)
+                     = fst (run_prog (fst (op_write r (c :: d'))) body (acc ++ [snd (op_write r (c :: d'))]))).
+        { cbn [run_prog run_op]. destruct (op_write r (c :: d')) as [r1 w]. reflexivity. }
+        rewrite Erun.
+        destruct (IH _ (acc ++ [snd (op_write r (c :: d'))]) Hi1 Hb Hok) as (I1 & I2 & I3 & I4).
+        destruct (Hstep _ I1 I2) as [G1 G2]. cbn [body_data]. repeat split; auto.
     + (* HFlush *)
-      cbn [fst snd body_data] in *. destruct (id_flush CL r Hi) as (Hi1 & He1 & S1). cbv zeta in *.
-      destruct (IH (op_flush r) (acc ++ []) Hi1 Hb Hok) as (I1 & I2 & I3 & I4). cbv zeta in *.
-      repeat split; auto.
+      change (run_prog r (HFlush :: body) acc) with (run_prog (op_flush r) body (acc ++ [])).
+      change (fst (run_op r HFlush)) with (op_flush r) in Hok.
+      destruct (id_flush CL r Hi) as (Hi1 & He1 & S1).
+      destruct (IH (op_flush r) (acc ++ []) Hi1 Hb Hok) as (I1 & I2 & I3 & I4).
+      cbn [body_data]. repeat split; auto.
       * intros He. rewrite (I1 He1), S1. now rewrite (eh_encoded r He).
       * intros He. destruct Hi as (_ & _ & _ & Hu & _). destruct (Hu He) as [(_ & Hout & Hbuf) _].
         destruct (eh_fresh r He) as [h Eh]. destruct (eh_fields r) as (F1 & F2 & _).
-        exists h. rewrite (I1 He1), S1. unfold stream. rewrite F1, Hout, Eh, F2. cbn [app ob]. now rewrite <- app_assoc.
+        exists h. rewrite (I1 He1), S1. unfold stream. rewrite F1, Hout, Eh, F2. cbn [concat app ob]. now rewrite <- app_assoc.
 Qed.
 
 (* ---- the first body operation settles the framing: starting from r or from prep0 r is the same ---- *)
 Lemma prep0_idem r : prep0 (prep0 r) = prep0 r.
 Proof. apply prep0_settled, prep0_is_settled. Qed.
 
+Lemma op_write_eq r c d' : op_write r (c :: d') = write_core (prep0 r) (c :: d').
+Proof. reflexivity. Qed.
+
 Lemma op_write_prep r d : d <> [] -> op_write (prep0 r) d = op_write r d.
-Proof. intros Hd. unfold op_write. destruct d; [congruence|]. fold (prep0 (prep0 r)). fold (prep0 r). now rewrite prep0_idem. Qed.
+Proof. intros Hd. destruct d as [|c d']; [congruence|]. rewrite !op_write_eq. now rewrite prep0_idem. Qed.
 Lemma op_flush_prep r : op_flush (prep0 r) = op_flush r.
 Proof. rewrite !op_flush_eq. now rewrite prep0_idem. Qed.
 Lemma op_finish_prep r : op_finish (prep0 r) = op_finish r.
@@ -666,8 +679,9 @@ Proof.
   intros (He & Ho & Hb & Hbb) Hc Hcl Hw Hok. cbv zeta. rewrite <- (finish_run_prep body r acc Hw).
   destruct (prep0_bufs r) as (A & B & C & D & _).
   assert (Hi : IdInv CL (prep0 r)).
-  { unfold IdInv. split; [apply prep0_is_settled|]. repeat split; auto; try congruence.
-    intros _ Hx. congruence. }
+  { unfold IdInv. split; [apply prep0_is_settled|]. split; [exact Hc|]. split; [exact Hcl|]. split.
+    - intros _. split; [unfold Unstarted; repeat split; congruence|]. intros _. congruence.
+    - intros _ Hx. congruence. }
   destruct (identity_wire CL body (prep0 r) acc Hi Hw Hok) as (_ & I2 & I3 & I4). cbv zeta in *.
   destruct I2 as [H SH]; [congruence|]. exists H. rewrite SH, C, Hbb. cbn [ob app]. auto.
 Qed.
@@ -681,9 +695,11 @@ Lemma header_ops_notstarted pre : forall r acc, NotStarted r -> forallb is_heade
 Proof.
   induction pre as [|o pre IH]; intros r acc Hn Hp; cbn [run_prog fst]; auto.
   cbn [forallb] in Hp. apply andb_true_iff in Hp as [Ho Hp].
+  assert (Hkeep : forall cl cu tr, NotStarted (set_hdrs r cl cu tr)).
+  { intros. destruct Hn as (A & B & C & D). repeat split; auto. }
+  assert (Hwh : forall c t, NotStarted (write_header r c t)).
+  { intros c t. destruct (wh_bufs r c t) as (W1 & W2 & W3 & W4 & _). destruct Hn as (A & B & C & D). repeat split; congruence. }
   destruct o; try discriminate; cbn [run_op]; apply IH; auto.
-  all: try (destruct Hn as (A & B & C & D); repeat split; auto).
-  destruct (wh_bufs r c t) as (W1 & W2 & W3 & W4 & _). destruct Hn as (A & B & C & D). repeat split; congruence.
 Qed.
 
 Lemma new_resp_notstarted q : NotStarted (new_resp q).
